@@ -1447,6 +1447,53 @@ theorem probability_gate (pr : Profile) (v : Option IntOrStr) (rand : Int) :
     | some x =>
       cases hx : scaledPercent x <;> simp [probFields, hx]
 
+theorem atoi_digits (ds : List Nat) (hne : ds ≠ []) (hd : ∀ b ∈ ds, isDigit b = true) :
+    atoi ds = some (digitsVal ds : Int) := by
+  cases ds with
+  | nil => exact absurd rfl hne
+  | cons b r =>
+    have hb : isDigit b = true := hd b (List.mem_cons_self ..)
+    have h43 : b ≠ 43 := by intro h; subst h; simp [isDigit] at hb
+    have h45 : b ≠ 45 := by intro h; subst h; simp [isDigit] at hb
+    have hall : (b :: r).all isDigit = true := List.all_eq_true.mpr hd
+    unfold atoi
+    split
+    · rename_i heq; split at heq
+      · rename_i h; injection h with h _; exact absurd h h43
+      · rename_i h; injection h with h _; exact absurd h h45
+      · cases heq; simp [hall]
+
+theorem atoi_neg_digits (ds : List Nat) (hne : ds ≠ []) (hd : ∀ b ∈ ds, isDigit b = true) :
+    atoi (45 :: ds) = some (-(digitsVal ds : Int)) := by
+  have hall : ds.all isDigit = true := List.all_eq_true.mpr hd
+  have he : ds.isEmpty = false := by cases ds <;> simp_all
+  simp [atoi, hall, he]
+
+/-- "<digits>%" is the percentage the digits denote (leading zeros allowed); "-<digits>%" its negation. -/
+theorem scaledPercent_digits (ds : List Nat) (hne : ds ≠ []) (hd : ∀ b ∈ ds, isDigit b = true) :
+    scaledPercent (.str (ds ++ [37])) = some (digitsVal ds : Int) ∧
+    scaledPercent (.str (45 :: ds ++ [37])) = some (-(digitsVal ds : Int)) := by
+  constructor
+  · unfold scaledPercent
+    simp only [List.reverse_append, List.reverse_cons, List.reverse_nil, List.nil_append, List.singleton_append, List.reverse_reverse]
+    exact atoi_digits ds hne hd
+  · unfold scaledPercent
+    simp only [List.cons_append, List.reverse_append, List.reverse_cons, List.reverse_nil, List.nil_append,
+      List.reverse_reverse]
+    simpa using atoi_neg_digits ds hne hd
+
+/-- a string-typed probability is accepted only in the form "<text>%" where strconv.Atoi accepts the text. -/
+theorem scaledPercent_needs_percent (s : LStr) (v : Int) (h : scaledPercent (.str s) = some v) :
+    ∃ body, s = body ++ [37] ∧ atoi body = some v := by
+  unfold scaledPercent at h
+  simp only [] at h
+  split at h
+  · rename_i r heq
+    refine ⟨r.reverse, ?_, h⟩
+    have := congrArg List.reverse heq
+    simpa using this
+  · cases h
+
 /-- a profile is kept unless one of its selectors evaluates to "no match"; an evaluation error keeps it. -/
 theorem selectors_matched_iff (pr : Profile) (ns obj : SelShape) :
     (pr.withSelectors ns obj).matched = true ↔ ns ≠ SelShape.differs ∧ obj ≠ SelShape.differs := by
@@ -1485,7 +1532,7 @@ example : (colocationMutate stdRanges true false 0 [offProfile] (exPod QoS.ls 95
 /-- an UPDATE of a terminating pod (both objects carry a deletionTimestamp) that turns a prod LS pod into BE, or a BE pod
     into LSR, or moves the class from batch to mid, is rejected; the same update with nothing changed is admitted. -/
 def plainUpdate : Envelope := { op := .update, subresource := false, isPods := true, hasObject := true, hasOld := true }
-def terminating : ObjShape := { oldDeleting := true, newDeleting := true, finalizers := true, statusOnly := false }
+def terminating : ObjShape := { oldDeleting := true, newDeleting := true, finalizers := false, oldFinalizers := true, statusOnly := false }
 
 example : plainUpdate.validated := by unfold Envelope.validated; decide
 
